@@ -122,12 +122,19 @@ Theorem C11_unknown_option_alone : forall raw,
   contains ","%char raw = false -> unknown_option raw = true -> options_build raw = options_build "".
 Proof. exact unknown_option_alone. Qed.
 Print Assumptions C11_unknown_option_alone.
-(* ... unless their value contains "=" (finding, DESIGN section 9 no. 19) *)
-Theorem C11_unknown_option_refuted :
+(* ... unless their value contains "=" and the code splits at every "=" (finding, DESIGN section 9 no. 19; opt_split_first is
+   regenerated from /repo: false for opt.split("="), true for opt.split("=", 1)) *)
+Theorem C11_unknown_option_refuted : opt_split_first = false ->
   exists raw k v, split_on "="%char raw = k :: v /\ mem_str k opt_flags = false /\ starts_with gapic_prefix k = false /\
                   options_build raw = Err EBadOption /\ options_build ("metadata," ++ raw) = Err EBadOption.
 Proof. exact unknown_option_refuted. Qed.
 Print Assumptions C11_unknown_option_refuted.
+Theorem C11_unknown_option_refuted_gen :
+  exists raw k v, split_on "="%char raw = k :: v /\ mem_str k opt_flags = false /\ starts_with gapic_prefix k = false /\
+                  options_build_gen false raw = Err EBadOption /\ options_build_gen false ("metadata," ++ raw) = Err EBadOption /\
+                  unknown_option_gen true raw = true.
+Proof. exact unknown_option_refuted_gen. Qed.
+Print Assumptions C11_unknown_option_refuted_gen.
 
 (* non-vacuity of wf_rapi / shallow / unknown_option on non-trivial objects *)
 Example C11_example_ok :
@@ -140,9 +147,12 @@ Example C11_example_ok :
 Proof. exact example_ok. Qed.
 Print Assumptions C11_example_ok.
 Example C11_unknown_option_examples :
-  unknown_option "foo=bar" = true /\ unknown_option " Mgoogle/api/x.proto=pkg " = true /\ unknown_option "" = true
-  /\ unknown_option "metadata" = false /\ unknown_option "python-gapic-name=x" = false /\ unknown_option "foo=a=b" = false
-  /\ options_build "transport=rest,foo=bar,metadata" = options_build "transport=rest,metadata".
+  unknown_option_gen false "foo=bar" = true /\ unknown_option_gen false " Mgoogle/api/x.proto=pkg " = true
+  /\ unknown_option_gen false "" = true /\ unknown_option_gen false "metadata" = false
+  /\ unknown_option_gen false "python-gapic-name=x" = false /\ unknown_option_gen false "foo=a=b" = false
+  /\ unknown_option_gen true "foo=a=b" = true /\ unknown_option_gen true "transport=a=b" = false
+  /\ options_build_gen false "transport=rest,foo=bar,metadata" = options_build_gen false "transport=rest,metadata"
+  /\ options_build_gen true "transport=rest,foo=a=b,metadata" = options_build_gen true "transport=rest,metadata".
 Proof. exact unknown_option_examples. Qed.
 Print Assumptions C11_unknown_option_examples.
 
